@@ -18,6 +18,8 @@ KINDS_SMALL = ["absent", "null", "int", "float", "s_abc", "s_int", "l_empty", "l
 KINDS_LIT = ["absent", "null", "s_abc", "s_xyz", "s_near", "s_long", "s_uni", "s_esc", "s_int", "l_strs15", "l_strs16", "l_rep16",
              "l_strs8a", "l_strs8b", "s_pad_plain", "s_pad_plain2"]
 KINDS_LITM = ["o_tags8a", "o_tags8b", "o_tags_rep", "o_tag_uni", "o_k"]
+# literal sets at the 15-value limit: the same values seen again (in another sample, in another order) must not change the outcome
+KINDS_LITORDER = ["absent", "s_abc", "l_strs15", "l_strs16", "l_rep16", "l_strs8a", "l_strs8b", "s_long"]
 KINDS_SAMESTR = ["absent", "null", "s_abc", "s_xyz", "l_strs_ab", "o_same"]
 KINDS_ORDER = ["absent", "null", "int", "float", "bool", "s_abc", "l_int", "o_k", "l_mixed_ref_int", "l_mixed_ref_str"]
 # objects for the dict-keys options and objects that differ only in a leaf two levels down
